@@ -366,7 +366,7 @@ func runChild(line string) {
 }
 
 func viaChild(line string) string {
-	ctx, cancel := context.WithTimeout(context.Background(), 3*time.Second)
+	ctx, cancel := context.WithTimeout(context.Background(), 6*time.Second)
 	defer cancel()
 	cmd := exec.CommandContext(ctx, os.Args[0], "child", line)
 	cmd.Dir = workDir
